@@ -28,7 +28,12 @@ func newRaceWatch() *raceWatch {
 	if j := strings.IndexByte(p, ' '); j >= 0 {
 		p = p[:j]
 	}
-	return &raceWatch{path: fmt.Sprintf("%s.%d", p, os.Getpid())}
+	rw := &raceWatch{path: fmt.Sprintf("%s.%d", p, os.Getpid())}
+	// reports of earlier jobs of this worker process are not this scenario's
+	if fi, err := os.Stat(rw.path); err == nil {
+		rw.off = fi.Size()
+	}
+	return rw
 }
 
 // collect returns the normalised reports written since the last call.
